@@ -73,6 +73,10 @@ claimed = {
    text="PARTIAL: protobuf runtime stubbed as uninterpreted. Symbolic execution of the real PublishIPFIXMessages, SendFlowMessage, both shipped schema convertors and consumer.DecodeAndPrintMsg against a recording sarama.AsyncProducer: one Kafka message per data record in order, none for templates, configured topic; the struct handed to proto.Marshal carries the record's symbolic values and the message's export time, sequence number, domain and exporter address; payload = 4-byte big-endian length + exactly the marshalled bytes (arbitrary symbolic bytes); the consumer hands exactly those bytes to proto.Unmarshal.",
    note="Not covered: protobuf wire encoding/decoding (trusted). Streams of 1..2 (quick) / 1..3 (thorough) messages with 0..2 records. Counterexamples are replayed in the interpreter.",
    tech="symbolic execution of Go SSA with an uninterpreted protobuf marshaller"),
+ "C20": dict(cat="other", sec="DESIGN.md section 4, C20",
+   text="PARTIAL: rendering excluded. Symbolic execution of the real addIPFIXMessage, flowRecordHandler and resetRecordHandler of cmd/collector (package main; the harness file is injected with go's overlay mechanism, nothing is added to the repository): one-step window update from a store of every length (quick: boundary lengths; thorough: every L in 0..4096), record queries for boundary counts in both formats and for a SYMBOLIC count on small stores (strconv.Atoi stubbed), refusal of invalid queries and methods, reset.",
+   note="Not covered: 'every field appears by name and value' beyond one concrete record shape (fmt is rendered by the host for concrete operands only); json.Marshal/http plumbing are recorders; run(), the HTTP server and signal handling are not executed. Counterexamples are replayed in the interpreter.",
+   tech="symbolic execution of Go SSA (package main via overlay) with recorder stubs for fmt/json/http"),
 }
 
 NA = {
